@@ -146,7 +146,7 @@ func c01Gen(r *rand.Rand, tier string) []any {
 	}
 	var out []any
 	for i := 0; i < tables; i++ {
-		o := rGenOpts{escaped: r.Intn(4) == 0, maxRoute: 8, dups: r.Intn(4) == 0}
+		o := rGenOpts{escaped: r.Intn(4) == 0, maxRoute: 8, dups: r.Intn(4) == 0, entry: true}
 		routes := rGenTable(r, o)
 		if r.Intn(3) == 0 {
 			r.Shuffle(len(routes), func(a, b int) { routes[a], routes[b] = routes[b], routes[a] })
